@@ -471,6 +471,12 @@ func (p *Parser) ParseMemberExpression(left ast.Expression) ast.Expression {
 		p.AddError(fmt.Sprintf("property name expected after '.', got %s", p.CurrentToken.Literal))
 		return nil
 	}
+	if p.CurrentToken.Type != token.IDENT {
+		// a keyword used as property name is just a name (not the start of a
+		// function expression, literal, ...)
+		exp.Property = &ast.Identifier{Token: p.CurrentToken, Value: p.CurrentToken.Literal}
+		return exp
+	}
 	exp.Property = p.expressionParseFn(p, MEMBER)
 	return exp
 }
